@@ -629,6 +629,11 @@ class Table(Vector):
 									selected_cols.append(col.copy())
 									found = True
 									break
+							elif base == col_name_lower:
+								# (the accessor name itself, as for a single name: t['col_a'] and t['col_a',])
+								selected_cols.append(col.copy())
+								found = True
+								break
 							else:
 								unique_name = f"{base }__{idx}"
 								seen.add(unique_name)
